@@ -81,14 +81,16 @@ func splitArgs(s string) (args []string) {
 	return args
 }
 
+var reRet = regexp.MustCompile(`^(.*)\)\s+= (.*)$`)
+
 // splitRet cuts "args) = ret" into args and ret.  The separator is the last
-// ") = " outside a string.
+// ")<blanks>= " of the line (strace pads short lines).
 func splitRet(s string) (args, ret string, ok bool) {
-	i := strings.LastIndex(s, ") = ")
-	if i < 0 {
+	m := reRet.FindStringSubmatch(s)
+	if m == nil {
 		return s, "", false
 	}
-	return s[:i], strings.TrimSpace(s[i+4:]), true
+	return m[1], strings.TrimSpace(m[2]), true
 }
 
 // dataCalls are the calls whose quoted arguments are data, not paths.
